@@ -5,7 +5,7 @@
 use fil_actor_miner::{
     Actor, Method, ReportConsensusFaultParams, consensus_fault_penalty, reward_for_consensus_slash_report,
 };
-use fil_actor_miner::ext::reward::ThisEpochRewardReturn;
+use fil_actors_runtime::reward::ThisEpochRewardReturn;
 use fil_actors_runtime::test_utils::{ACCOUNT_ACTOR_CODE_ID, MockRuntime};
 use fil_actors_runtime::{BURNT_FUNDS_ACTOR_ADDR, REWARD_ACTOR_ADDR};
 use fvm_ipld_encoding::ipld_block::IpldBlock;
@@ -48,7 +48,7 @@ fn undeliverable_reporter_reward_is_burnt() {
     };
     rt.expect_send_simple(
         REWARD_ACTOR_ADDR,
-        fil_actor_miner::ext::reward::THIS_EPOCH_REWARD_METHOD,
+        fil_actor_reward::Method::ThisEpochReward as u64,
         None,
         TokenAmount::zero(),
         IpldBlock::serialize_cbor(&current_reward).unwrap(),
